@@ -274,11 +274,13 @@ func build(t reflect.Type, s M, depth int) []reflect.Value {
 	case reflect.Int8:
 		return mk(t, 0, -1, 5, math.MaxInt8, math.MinInt8)
 	case reflect.Uint, reflect.Uint64:
-		return mk(t, uint64(0), uint64(1), uint64(5), uint64(math.MaxUint64))
+		return mk(t, uint64(0), uint64(1), uint64(5), uint64(math.MaxInt64), uint64(math.MaxInt64)+1, uint64(math.MaxUint64), uint64(1)<<53+1)
 	case reflect.Uint32:
-		return mk(t, uint32(0), uint32(5), uint32(math.MaxUint32))
-	case reflect.Uint16, reflect.Uint8:
-		return mk(t, uint8(0), uint8(5), uint8(255))
+		return mk(t, uint32(0), uint32(5), uint32(math.MaxInt32), uint32(math.MaxInt32)+1, uint32(math.MaxUint32))
+	case reflect.Uint16:
+		return mk(t, uint16(0), uint16(5), uint16(math.MaxInt16), uint16(math.MaxInt16)+1, uint16(math.MaxUint16))
+	case reflect.Uint8:
+		return mk(t, uint8(0), uint8(5), uint8(127), uint8(128), uint8(255))
 	case reflect.Float64:
 		return mk(t, 0.0, 0.5, 1.0, -1.0, 2.0, 2.5, -0.5, 1.5, 0.25, 1e21, 1e-7, math.MaxFloat64, 5e-324, 0.1, math.Copysign(0, -1))
 	case reflect.Float32:
